@@ -4,9 +4,12 @@ Config table (everything in integer credit units) -> generated machine configs (
 mode with fake ball handling) -> generated CreditsMC module -> exhaustive TLC check of the intended model ->
 TLC-simulated schedules + hand-written ones + the TLC counterexample of the code-as-is cap model -> executed on
 real MPF in virtual time -> traces validated against CreditsTrace (intended model, Deviations = {}).
-Rejected traces are re-validated with the named code-as-is deviations switched on, only to give each rejected
-trace a stable signature (which known deviation(s) explain it, or none).
+Rejected traces are re-validated (up to their first divergence) with the named code-as-is deviations switched on, only
+to give each rejected trace a stable signature (which known deviation(s) explain it, or none).
+Configurations 11-13 have insertions that are large compared with the pricing table (a bill worth several wrap-arounds of
+the tier counter); `press2` is both start buttons (s_start, s_start2) hit in the same instant.
 """
+import itertools
 import os
 import traceback
 
@@ -20,6 +23,9 @@ BALLS_PER_GAME = 2
 TYPES = ('money', 'token')
 KEYS = ('id', 'upg', 'tiers', 'coins', 'maxU', 'fracExp', 'allExp', 'bootFree', 'evCredits', 'maxPlayers')
 ALL_OPS = ('coin', 'service', 'event', 'press', 'drain', 'free', 'credit', 'toggle', 'reset')
+# press2: both start buttons in the same instant; model-checked / generated with a smaller set of other operations
+P2_OPS = ('coin', 'service', 'press', 'press2', 'drain', 'reset')
+P2_MC_IDS = (1, 2, 5, 7, 11, 12, 13)
 
 
 def C(i, upg, tiers, coins, max_credits, frac=0, allx=0, boot_free=False, ev=1, players=3, unit=0.25):
@@ -51,7 +57,16 @@ TABLE = [
     C(9, 1, [(1, 1), (4, 5)], [(1, 'money'), (3, 'token')], 4, allx=2),
     # no maximum, short expiry times, tier wrap after 4 units
     C(10, 2, [(2, 1), (4, 3)], [(1, 'money'), (2, 'money')], 0, frac=1, allx=2, players=2),
+    # ---- insertions that are LARGE compared with the pricing table (bill acceptors, big tokens): one insertion passes the
+    # highest tier (the tier counter wraps around) once or several times and crosses further bonus steps behind the wrap
+    # the documentation example with a 5.00 bill: 20 units against a wrap-around of 8 (two wraps and a half)
+    C(11, 2, [(2, 1), (8, 5)], [(1, 'money'), (20, 'money')], 30, frac=2, players=4),
+    # .25 per game, 3 credits for .50, a 1.00 coin (two wraps per coin) and a 1.25 token (wraps in the middle), no maximum
+    C(12, 1, [(1, 1), (2, 3)], [(1, 'money'), (4, 'money'), (5, 'token')], 0, allx=3, players=4),
+    # three tiers (.75 / 2.00 / 5.00), quarters, dollars and a 10.00 bill (two wraps of the whole table)
+    C(13, 3, [(3, 1), (8, 3), (20, 9)], [(1, 'money'), (4, 'money'), (40, 'token')], 20, players=4),
 ]
+BIG_IDS = (11, 12, 13)
 BY_ID = {c['id']: c for c in TABLE}
 
 
@@ -72,6 +87,8 @@ def write_machines(scratch):
              '  max_players: %d' % c['maxPlayers'], 'switches:']
         for i in range(len(c['coins'])):
             L += ['  s_coin%d:' % (i + 1), '    number:']
+        # a second start button (s_start itself is added by the game test harness)
+        L += ['  s_start2:', '    number:', '    tags: start']
         L += ['  s_esc:', '    number:', 'credits:', '  max_credits: %d' % c['_max_credits'],
               '  free_play: %s' % ('yes' if c['bootFree'] else 'no'), '  service_credits_switch: s_esc', '  switches:']
         for i, coin in enumerate(c['coins']):
@@ -96,20 +113,27 @@ def mc_module(table):
     return """----------------------------- MODULE CreditsMC -----------------------------
 EXTENDS Credits
 MCConfigs == {%s}
+MCConfigsP2 == {c \\in MCConfigs : c.id \\in {%s}}
+MCConfigsBase == {c \\in MCConfigs : c.id \\notin {%s}}
 MCDev0 == {}
 MCDevCap == {"CapOverwritten"}
+MCDevTick == {"SameTickGate"}
 MCOps == {%s}
 GenOps == {%s}
 GenOpsNoEnable == GenOps \\ {"credit"}
+P2Ops == {%s, "press2both"}
+GenOpsP2 == (P2Ops \\ {"press2both"}) \\union {"event", "toggle", "reset"}
 =============================================================================
 """ % (',\n   '.join(to_tla(cfg_rec(c)) for c in table),
+       ', '.join(str(i) for i in P2_MC_IDS), ', '.join(str(i) for i in BIG_IDS),
        ', '.join('"%s"' % o for o in ALL_OPS if o != 'toggle'),
-       ', '.join('"%s"' % o for o in ALL_OPS))
+       ', '.join('"%s"' % o for o in ALL_OPS),
+       ', '.join('"%s"' % o for o in P2_OPS))
 
 
 MC_CFG = """SPECIFICATION Spec
 CONSTANTS
-  Configs <- MCConfigs
+  Configs <- %s
   Deviations <- %s
   MaxTime = %d
   MaxOps = %d
@@ -119,8 +143,8 @@ CONSTANTS
 %sCHECK_DEADLOCK FALSE
 """
 INVS = ('TypeOK', 'Bounds', 'ClosedForm')
-PROPS = ('CoinExact', 'NonTieredExact', 'FreePlayInert', 'StartGate', 'OnlyTheseLower', 'ExpiryRules', 'AuditsMatch',
-         'TierResetOncePerGame')
+PROPS = ('CoinExact', 'EveryTierInOneCoin', 'DenominationFree', 'NonTieredExact', 'FreePlayInert', 'StartGate', 'StartsPaid',
+         'OnlyTheseLower', 'ExpiryRules', 'AuditsMatch', 'TierResetOncePerGame')
 CHECKS = ''.join('INVARIANT %s\n' % x for x in INVS) + ''.join('PROPERTY %s\n' % x for x in PROPS)
 
 TRACE_CFG = """SPECIFICATION TSpec
@@ -136,7 +160,7 @@ INVARIANT Reporter
 CHECK_DEADLOCK FALSE
 """
 DEV_SIG = {'CapOverwritten': 'C20:cap-overwritten', 'DupHandlers': 'C20:duplicate-handlers',
-           'BootFreeNoUnits': 'C20:boot-free-play-no-units'}
+           'BootFreeNoUnits': 'C20:boot-free-play-no-units', 'SameTickGate': 'C20:same-tick-start-requests'}
 DEV_WHAT = {
     'CapOverwritten': 'credits.py _add_credit_units: after capping at max_credits the second `if` stores the uncapped total '
                       'whenever the previous balance was below the maximum, so the balance exceeds the configured maximum',
@@ -146,12 +170,17 @@ DEV_WHAT = {
     'BootFreeNoUnits': 'credits.py mode_start: a machine booted in free play never runs _calculate_credit_units / '
                        '_calculate_pricing_tiers; after enable_credit_play / toggle_credit_play the price per game is 0 '
                        '(start gate always open, nothing deducted) and a coin divides by the zero credit unit',
+    'SameTickGate': 'game.py request_player_add / credits.py _player_add_request + _player_added: two add-player requests in the '
+                    'same instant (two switches tagged start hit together, sw_start posted twice) are both answered by the '
+                    'player_add_request gate before the player_added handler of the first one deducts, so with one game price '
+                    'left BOTH players are added; the second deduction is clamped at zero ("Somehow credit units went below '
+                    '0"): a player started without a full game price, balance != money - price * players',
 }
-# subsets of deviations tried (in this order) on the traces the intended model rejects
-DEV_SETS = [('TDevCap', ('CapOverwritten',)), ('TDevDup', ('DupHandlers',)), ('TDevBoot', ('BootFreeNoUnits',)),
-            ('TDevCapDup', ('CapOverwritten', 'DupHandlers')), ('TDevCapBoot', ('CapOverwritten', 'BootFreeNoUnits')),
-            ('TDevDupBoot', ('DupHandlers', 'BootFreeNoUnits')),
-            ('TDevAll', ('CapOverwritten', 'DupHandlers', 'BootFreeNoUnits'))]
+_DEVS = (('Tick', 'SameTickGate'), ('Cap', 'CapOverwritten'), ('Dup', 'DupHandlers'), ('Boot', 'BootFreeNoUnits'))
+# subsets of deviations tried (in this order: one deviation, two, ...) on the traces the intended model rejects; the names
+# are defined in CreditsTrace.tla
+DEV_SETS = [('TDev' + ''.join(a for a, _ in comb), tuple(d for _, d in comb))
+            for n in range(1, len(_DEVS) + 1) for comb in itertools.combinations(_DEVS, n)]
 
 
 # ---- execution on real MPF -------------------------------------------------------------------------------------
@@ -238,6 +267,13 @@ def _drive(h, c, sched):
                 m.events.post('c20_award')
             elif op == 'press':
                 h.hit_and_release_switch('s_start')
+            elif op == 'press2':
+                # both start buttons in the same instant: the events are only processed after both were hit and released
+                # (not where the second request would run into max_players, which is not part of C20; the model has the
+                # same guard, this one matters only after the real machine diverged from the schedule's model state)
+                if m.game is not None and m.game.num_players + 2 > c['maxPlayers']:
+                    continue
+                h.hit_and_release_switches_simultaneously(['s_start', 's_start2'])
             elif op == 'drain':
                 if m.game is None or m.game.balls_in_play <= 0:
                     continue            # the real machine has no ball in play (only after a divergence)
@@ -274,8 +310,34 @@ def _ops(*xs):
 
 
 def hand_schedules():
-    c1, c2 = ('coin', 1), ('coin', 2)
+    c1, c2, c3 = ('coin', 1), ('coin', 2), ('coin', 3)
     return [
+        # ---- insertions that are large compared with the pricing table
+        # one 5.00 bill against 0.50 = 1 credit / 2.00 = 5 credits: two and a half wraps of the tier counter in one insertion
+        ('bill-alone', 11, _ops(c2, 'press', 'press')),
+        # 1.50 in quarters, then the bill: the bill crosses the wrap-around in the middle of its units, then twice more
+        ('small-coins-then-bill', 11, _ops(c1, c1, c1, c1, c1, c1, c2, c1, c1, c2)),
+        # bills in a row up to the maximum of 30 credits, small coins in between
+        ('bills-in-a-row-to-the-maximum', 11, _ops(c2, c2, c1, c2, c1, c2)),
+        ('bill-one-unit-before-the-wrap', 11, _ops(c1, c1, c1, c1, c1, c1, c1, c2, c1)),
+        ('bill-game-bill-ball2-bill', 11, _ops(c2, 'press', c1, c2, 'press', 'drain', 'drain', c1, c2, 'drain', c2, 'drain', 'drain', c2)),
+        ('bill-fractional-expiry', 11, _ops(c1, c2, 'adv', 'adv', c2, c1, 'adv', 'adv', 'reset', c2)),
+        # a 1.00 coin / 1.25 token against a table that wraps after 0.50
+        ('dollar-two-wraps-per-coin', 12, _ops(c2, c2, c1, c2, c3, c3, c1, c3, c2)),
+        ('token-wraps-in-the-middle', 12, _ops(c1, c3, 'press', c3, c3, 'press', 'drain', c3, 'drain', c1, c2, c3)),
+        ('dollar-expiry', 12, _ops(c3, 'adv', c2, 'adv', 'adv', 'adv', c3, c1, c2)),
+        # three tiers and a 10.00 bill worth two wraps of the whole table, up to the maximum
+        ('bill-three-tiers', 13, _ops(c3, 'press', c1, c2, c3, c2, c1, c3)),
+        ('bill-three-tiers-offsets', 13, _ops(c1, c1, c2, c3, 'reset', c2, c2, c2, c2, c1, c1, c1, c3, c1)),
+        # ---- two start buttons hit in the same instant
+        ('two-start-buttons-one-credit-left', 2, _ops(c2, 'press', 'press2', c1, c1, 'press')),
+        ('two-start-buttons-one-and-a-half-credits-left', 2, _ops(c2, c1, 'press', 'press2')),
+        ('two-start-buttons-enough-credits', 2, _ops(c2, c2, 'press', 'press2', c1)),
+        ('two-start-buttons-attract', 2, _ops(c1, 'press2', c1, 'press2', 'press', c2, 'drain', 'drain', 'press2', 'press', c1)),
+        ('two-start-buttons-attract-three-credits', 11, _ops(c1, c1, c1, c1, c1, c1, 'press2', 'press2', 'press')),
+        ('two-start-buttons-free-play', 7, _ops('press2', 'press2', 'toggle', 'service', 'press')),
+        ('two-start-buttons-bill', 11, _ops(c2, 'press2', 'press2', c2, 'drain', 'press')),
+        ('two-start-buttons-ball-2', 2, _ops(c2, 'press', 'drain', 'press2', c1)),
         # just below the maximum plus a multi-unit coin (11 credits + a coin worth 2 credits, maximum 12)
         ('below-max-plus-multi-unit-coin', 2, _ops(*(['service'] * 11 + [c2, 'press', 'press']))),
         ('at-max-coin', 3, _ops('service', 'service', 'service', c1, c2, 'press', c2)),
@@ -308,6 +370,42 @@ def hand_schedules():
     ]
 
 
+def _coin_is_large(c, i):
+    """worth at least a whole wrap-around of the tier table (the price of the highest tier)"""
+    return bool(c['tiers']) and 0 < i <= len(c['coins']) and c['coins'][i - 1]['v'] >= c['tiers'][-1][0]
+
+
+def _relevant_devs(c, sched):
+    """the named deviations that can change the model's behaviour for this configuration and schedule at all"""
+    ops = {a.get('op') for a in sched}
+    rel = set()
+    if 'press2' in ops:
+        rel.add('SameTickGate')
+    if c['maxU'] > 0:
+        rel.add('CapOverwritten')
+    if 'credit' in ops:
+        rel.add('DupHandlers')
+    if c['bootFree']:
+        rel.add('BootFreeNoUnits')
+    return rel
+
+
+def _describe(c, fe, pe):
+    """words for the report only (what was accepted / rejected has been decided by TLC)"""
+    if fe.get('op') == 'coin' and 'units' in fe and 'units' in pe and 0 < fe.get('i', 0) <= len(c['coins']):
+        v = c['coins'][fe['i'] - 1]['v']
+        w = c['tiers'][-1][0] if c['tiers'] else 1
+        return ('an insertion worth %d credit units (%s wrap-arounds of the tier table, %d units = highest tier price; %d units per '
+                'game, maximum %s) took the balance from %d to %d units (+%d), which is not what the pricing table yields for the '
+                'money inserted: ' % (v, ('%.2f' % (v / w)).rstrip('0').rstrip('.'), w, c['upg'], c['maxU'] or 'none',
+                                      pe['units'], fe['units'], fe['units'] - pe['units']))
+    if fe.get('op') in ('press', 'press2') and 'units' in fe and 'units' in pe:
+        return ('start request%s: balance %d -> %d units, players %d -> %d at %d units per game: ' % (
+            's from two start buttons in the same instant' if fe['op'] == 'press2' else '', pe['units'], fe['units'],
+            pe.get('players', 0), fe.get('players', 0), c['upg']))
+    return ''
+
+
 # ---- the check ---------------------------------------------------------------------------------------------------------
 def run(ctx):
     root = write_machines(ctx.scratch)
@@ -315,15 +413,24 @@ def run(ctx):
     with open(wd + '/CreditsMC.tla', 'w') as f:
         f.write(mc_module(TABLE))
     bounds = dict(MaxTime=3, MaxOps=6, MaxPaid=1000) if ctx.quick else dict(MaxTime=4, MaxOps=7, MaxPaid=1000)
+    # quick: the configurations with large insertions are model-checked in the second run only (fewer kinds of operations)
+    mcconf = 'MCConfigsBase' if ctx.quick else 'MCConfigs'
     with open(wd + '/MC.cfg', 'w') as f:
-        f.write(MC_CFG % ('MCDev0', bounds['MaxTime'], bounds['MaxOps'], bounds['MaxPaid'], BALLS_PER_GAME, 'MCOps', CHECKS))
+        f.write(MC_CFG % (mcconf, 'MCDev0', bounds['MaxTime'], bounds['MaxOps'], bounds['MaxPaid'], BALLS_PER_GAME, 'MCOps', CHECKS))
     r = tlc.expect_ok(tlc.check(wd, 'CreditsMC', 'MC.cfg', timeout=3000), 'Credits design check (intended model)')
-    ctx.add_tlc('CreditsMC', r, dict(bounds, configs=len(TABLE), BallsPerGame=BALLS_PER_GAME))
+    ctx.add_tlc('CreditsMC', r, dict(bounds, configs=len(TABLE) - (len(BIG_IDS) if ctx.quick else 0), BallsPerGame=BALLS_PER_GAME))
+    # second run: large insertions (coins worth several wrap-arounds of the tier table) and two start requests in the same
+    # instant, with the operations that matter for them
+    b2 = dict(MaxTime=2, MaxOps=5, MaxPaid=1000) if ctx.quick else dict(MaxTime=3, MaxOps=7, MaxPaid=1000)
+    with open(wd + '/MC2.cfg', 'w') as f:
+        f.write(MC_CFG % ('MCConfigsP2', 'MCDev0', b2['MaxTime'], b2['MaxOps'], b2['MaxPaid'], BALLS_PER_GAME, 'P2Ops', CHECKS))
+    r2 = tlc.expect_ok(tlc.check(wd, 'CreditsMC', 'MC2.cfg', timeout=3000), 'Credits design check (large insertions, simultaneous starts)')
+    ctx.add_tlc('CreditsMC large insertions + simultaneous starts', r2, dict(b2, configs=list(P2_MC_IDS), ops=list(P2_OPS)))
     ctx.coverage['monitors'] += list(INVS) + list(PROPS)
 
     # the code-as-is cap (Deviation CapOverwritten) must break Bounds in the model; its counterexample is a schedule
     with open(wd + '/MCcap.cfg', 'w') as f:
-        f.write(MC_CFG % ('MCDevCap', 2, 6, 1000, BALLS_PER_GAME, 'MCOps', 'INVARIANT Bounds\n'))
+        f.write(MC_CFG % ('MCConfigs', 'MCDevCap', 2, 6, 1000, BALLS_PER_GAME, 'MCOps', 'INVARIANT Bounds\n'))
     rc = tlc.check(wd, 'CreditsMC', 'MCcap.cfg', workers=1, timeout=3000)      # 1 worker: deterministic counterexample
     ctx.add_tlc('CreditsMC code-as-is cap', rc, {'Deviations': ['CapOverwritten'], 'MaxOps': 6})
     jobs = []
@@ -337,19 +444,37 @@ def run(ctx):
                 ce[0]['cfg']['id'], [st['act'] for st in ce][1:]))
     else:
         ctx.notes.append('model with Deviation CapOverwritten did not violate Bounds within its budget (violated=%s)' % rc.violated)
+    if not ctx.quick:
+        # the code-as-is start gate (Deviation SameTickGate) must break StartsPaid in the model; counterexample = schedule
+        with open(wd + '/MCtick.cfg', 'w') as f:
+            f.write(MC_CFG % ('MCConfigsP2', 'MCDevTick', 0, 6, 1000, BALLS_PER_GAME, 'P2Ops', 'PROPERTY StartsPaid\n'))
+        rt = tlc.check(wd, 'CreditsMC', 'MCtick.cfg', workers=1, timeout=3000)
+        ctx.add_tlc('CreditsMC code-as-is start gate', rt, {'Deviations': ['SameTickGate'], 'MaxOps': 6})
+        ce = [st for _, st in rt.counterexample() if isinstance(st, dict) and 'act' in st] if rt.violated == 'StartsPaid' else []
+        if ce:
+            jobs.append((root, ce[0]['cfg']['id'], [st['act'] for st in ce]))
+            labels.append('tlc-counterexample-of-code-as-is-start-gate')
+            ctx.notes.append('model with Deviation SameTickGate violates StartsPaid: config %s schedule %s' % (
+                ce[0]['cfg']['id'], [st['act'] for st in ce][1:]))
+        else:
+            ctx.notes.append('model with Deviation SameTickGate did not violate StartsPaid (violated=%s)' % rt.violated)
     for label, cid, sched in hand_schedules():
         jobs.append((root, cid, sched))
         labels.append('hand:' + label)
 
     with open(wd + '/Gen.cfg', 'w') as f:
-        f.write(MC_CFG % ('MCDev0', 10, 26, 1000000, BALLS_PER_GAME, 'GenOps', ''))
+        f.write(MC_CFG % ('MCConfigs', 'MCDev0', 10, 26, 1000000, BALLS_PER_GAME, 'GenOps', ''))
     # a second generator never posts enable_credit_play (credit play is re-entered with toggle_credit_play only), so
     # that a good share of the schedules is not cut short by the duplicate-handler defect
     with open(wd + '/Gen2.cfg', 'w') as f:
-        f.write(MC_CFG % ('MCDev0', 10, 26, 1000000, BALLS_PER_GAME, 'GenOpsNoEnable', ''))
+        f.write(MC_CFG % ('MCConfigs', 'MCDev0', 10, 26, 1000000, BALLS_PER_GAME, 'GenOpsNoEnable', ''))
+    # a third generator has two start buttons hit in the same instant (fewer kinds of other operations)
+    with open(wd + '/Gen3.cfg', 'w') as f:
+        f.write(MC_CFG % ('MCConfigs', 'MCDev0', 10, 26, 1000000, BALLS_PER_GAME, 'GenOpsP2', ''))
     num = 480 if ctx.quick else 6000
     depth = 30 if ctx.quick else 44
-    for gcfg, n, lab, seed in (('Gen.cfg', num // 3, 'sim', ctx.seed), ('Gen2.cfg', num - num // 3, 'sim-no-enable', ctx.seed + 1000)):
+    for gcfg, n, lab, seed in (('Gen.cfg', num // 3, 'sim', ctx.seed), ('Gen2.cfg', num - num // 3, 'sim-no-enable', ctx.seed + 1000),
+                               ('Gen3.cfg', num // 6, 'sim-two-start-buttons', ctx.seed + 2000)):
         behs, _ = tlc.simulate(wd, 'CreditsMC', gcfg, num=n, depth=depth, seed=seed)
         for b in behs:
             jobs.append((root, b[0]['cfg']['id'], [st['act'] for st in b]))
@@ -359,27 +484,41 @@ def run(ctx):
     for name, _ in [('TDev0', ())] + DEV_SETS:
         with open(wd + '/Trace_%s.cfg' % name, 'w') as f:
             f.write(TRACE_CFG % (name, BALLS_PER_GAME))
-    v = tlc.validate_traces(wd, 'CreditsTrace', 'Trace_TDev0.cfg', traces, batch=1000)
+    v = tlc.validate_traces(wd, 'CreditsTrace', 'Trace_TDev0.cfg', traces, batch=1000, diagnose=False)
     ctx.add_trace_verdict('CreditsTrace', v, len(traces))
     ctx.coverage['configs_exercised'] = sorted({j[1] for j in jobs})
     ctx.coverage['ops_executed'] = sum(len(t['ev']) for t in traces)
+    ctx.coverage['large_insertions_executed'] = sum(
+        1 for j in jobs for a in j[2] if a.get('op') == 'coin' and _coin_is_large(BY_ID[j[1]], a['i']))
+    ctx.coverage['simultaneous_start_requests_executed'] = sum(1 for j in jobs for a in j[2] if a.get('op') == 'press2')
     ctx.sample({'kind': 'credits-trace', 'label': labels[0], 'cfg': traces[0]['cfg'], 'trace': traces[0]['ev'][:12]})
 
-    # classify rejected traces: which named code-as-is deviation(s) make the model follow the real execution?
+    # where does the intended model stop following each rejected execution (one TLC run for all of them)
     rej = sorted(v.rejected)
+    if rej:
+        tlc.finish_diagnosis(wd, 'CreditsTrace', 'Trace_TDev0.cfg', traces, v)
+    # classify the FIRST divergence of every rejected trace: which named code-as-is deviation(s) make the model follow the
+    # real execution up to and including the line the intended model rejects?  (What comes after a divergence is not
+    # classified: the schedule was generated for the state the intended model was in.  A deviation is only tried on the
+    # traces whose configuration / schedule it can influence at all.)
+    def prefix(i):
+        n = v.rejected[i].get('line') or 0
+        return dict(traces[i], ev=traces[i]['ev'][:n]) if n > 0 and v.rejected[i].get('failing_event') else traces[i]
+
+    def sched_prefix(i):
+        n = v.rejected[i].get('line') or 0
+        return [dict(a) for a in traces[i]['ev'][:n]] if n > 0 else jobs[i][2]
     explained = {}
     todo = list(rej)
     for name, devs in DEV_SETS:
-        if not todo:
-            break
-        vd = tlc.validate_traces(wd, 'CreditsTrace', 'Trace_%s.cfg' % name, [traces[i] for i in todo],
-                                 diagnose=(name == 'TDevAll'), batch=1000)
-        ctx.log('classification with %s: %d of %d rejected traces explained' % (name, len(vd.accepted), len(todo)))
+        cand = [i for i in todo if set(devs) <= _relevant_devs(BY_ID[jobs[i][1]], sched_prefix(i))]
+        if not cand:
+            continue
+        vd = tlc.validate_traces(wd, 'CreditsTrace', 'Trace_%s.cfg' % name, [prefix(i) for i in cand], diagnose=False, batch=1000)
+        ctx.log('classification with %s: %d of %d rejected traces explained' % (name, len(vd.accepted), len(cand)))
         for k in sorted(vd.accepted):
-            explained[todo[k]] = devs
-        last = vd
-        last_ids = list(todo)
-        todo = [i for k, i in enumerate(todo) if k not in vd.accepted]
+            explained[cand[k]] = devs
+        todo = [i for i in todo if i not in explained]
     ctx.coverage['rejected_by_intended_model'] = len(rej)
     ctx.coverage['rejected_explained_by_deviation'] = {
         '+'.join(d): sum(1 for x in explained.values() if x == d) for d in sorted(set(explained.values()))}
@@ -388,25 +527,23 @@ def run(ctx):
     for i in rej:
         info = v.rejected[i]
         fe = info.get('failing_event') or {}
+        pe = info.get('prev_event') or {}
+        c = BY_ID[jobs[i][1]]
         rd = {'cid': jobs[i][1], 'sched': jobs[i][2], 'label': labels[i], 'trace': traces[i], 'info': info}
         if i in explained:
             for d in explained[i]:
                 ctx.violation(DEV_SIG[d], '%s [schedule %s, config %s; intended model rejects line %s: %s after %s]' % (
-                    DEV_WHAT[d], labels[i], cfg_rec(BY_ID[jobs[i][1]]), info.get('line'), fe, info.get('prev_event')), rd)
+                    DEV_WHAT[d], labels[i], cfg_rec(c), info.get('line'), fe, pe), rd)
         else:
-            k = last_ids.index(i) if i in last_ids else None
-            inf2 = last.rejected.get(k, {}) if k is not None else {}
-            fe2 = inf2.get('failing_event') or fe
-            if not fe2:
-                undiagnosed.append(i)       # only the first few rejected traces of a batch are diagnosed line by line
+            if not fe or fe.get('op') == 'undiagnosed':
+                undiagnosed.append(i)
                 continue
             n_unexplained += 1
-            rd['info_all_deviations'] = inf2
-            ctx.violation('C20:unexplained:%s' % (fe2.get('during') if fe2.get('op') == 'crash' else fe2.get('op', '?')),
-                          'credits execution not explained by the Credits spec (nor by the known deviations) at line %s: %s '
+            ctx.violation('C20:unexplained:%s' % (fe.get('during') if fe.get('op') == 'crash' else fe.get('op', '?')),
+                          'credits execution not explained by the Credits spec (nor by the known deviations) at line %s: %s%s '
                           '(prev %s; schedule %s; cfg %s)%s' % (
-                              inf2.get('line', info.get('line')), fe2, inf2.get('prev_event', info.get('prev_event')), labels[i],
-                              cfg_rec(BY_ID[jobs[i][1]]), ('\n' + traces[i]['_tb']) if '_tb' in traces[i] else ''), rd)
+                              info.get('line'), _describe(c, fe, pe), fe, pe, labels[i],
+                              cfg_rec(c), ('\n' + traces[i]['_tb']) if '_tb' in traces[i] else ''), rd)
     if undiagnosed and not n_unexplained:
         i = undiagnosed[0]
         ctx.violation('C20:unexplained:undiagnosed', 'credits execution not explained by the Credits spec (schedule %s; cfg %s)' % (
@@ -417,6 +554,8 @@ def run(ctx):
         'real credits mode + real attract/game modes; ball handling faked (balls_in_play set to 0 to drain), %d balls per game' % BALLS_PER_GAME,
         'one machine boot per schedule; virtual time, one abstract time unit = %d ms' % U_MS,
         'all currency values are multiples of the smallest coin (credit unit), so unit conversion is exact',
+        'two simultaneous start requests are only driven where the second one cannot run into max_players (not part of C20); '
+        'from attract the second press may or may not add a player (statement silent)',
         'earnings observed in the mode object (data manager double), keys "1 Total Coins <type>" / "2 Total Earnings <type>"',
     ]
 
